@@ -694,6 +694,12 @@ Proof.
     + auto.
 Qed.
 
+Lemma skipn_skipn' : forall {A} (b a : nat) (l : list A), skipn a (skipn b l) = skipn (b + a) l.
+Proof.
+  induction b; intros; cbn [skipn Nat.add]; auto.
+  destruct l; cbn [skipn]; auto. now rewrite skipn_nil.
+Qed.
+
 Section Fast.
   Variable ins : list (Z * Z).
   Variable cap : Z.
@@ -709,14 +715,14 @@ Section Fast.
     induction ps as [|[h valid] ps IH]; intros row; cbn [fast_loop spec_from seg fst snd length].
     - split; auto.
     - destruct (IH (row + 1)) as [F L]. rewrite F.
-      destruct valid; cbn [negb].
+      destruct valid; unfold seg; cbn [negb fst snd].
       2:{ cbn [map app]. split; auto. }
       destruct (map_find h (jmap s)) as [idx|] eqn:Fd.
       + destruct (inv_find_some _ _ _ _ _ _ I Fd) as [Hne E]. specialize (U h).
         destruct (rows_of ins h) as [|r [|r2 l]]; [congruence| |cbn [length] in U; lia].
         cbn [encodes] in E. destruct E as [-> [Hr _]].
         destruct (r + 1 <? 1) eqn:E1; [apply Z.ltb_lt in E1; lia|].
-        replace (r + 1 - 1) with r by lia. cbn [map app length]. split; [reflexivity|]. Show. lia.
+        replace (r + 1 - 1) with r by lia. cbn [map app length]. split; [reflexivity|lia].
       + rewrite (inv_find_none _ _ _ _ _ I Fd). cbn [map app]. split; auto.
   Qed.
 
@@ -767,7 +773,7 @@ Section Fast.
         * cbn [concat]. rewrite Cc.
           rewrite <- (firstn_skipn (Z.to_nat (e - i)) X) at 2. rewrite spec_from_app.
           f_equal. f_equal.
-          -- unfold X, skipZ. rewrite skipn_skipn. f_equal. lia.
+          -- unfold X, skipZ. rewrite skipn_skipn'. f_equal. lia.
           -- unfold lenZ in *. rewrite firstn_length. lia.
         * constructor; auto.
   Qed.
@@ -831,5 +837,9 @@ Lemma paged_run_det : forall s probes limit t p1, paged_run s probes limit t p1 
   forall p2, paged_run s probes limit t p2 -> p1 = p2.
 Proof.
   induction 1; intros p2 R2; inversion R2; subst; try congruence.
-  rewrite H in H2. inversion H2; subst. f_equal. auto.
+  match goal with
+  | A : lookup_page _ _ _ _ = Some (pg, Some t'), B : lookup_page _ _ _ _ = Some (?q, Some ?u) |- _ =>
+      rewrite A in B; inversion B; subst
+  end.
+  f_equal. auto.
 Qed.
